@@ -73,7 +73,7 @@ func cause(p *ReqPlan) string {
 	if p.Ctl.HeaderK != "" {
 		parts = append(parts, "ctl:header")
 	}
-	if p.Ctl.RetJSON == "null" || p.Ctl.RetJSON == "[]" {
+	if p.Ctl.RetJSON == "null" || p.Ctl.RetJSON == "[]" || p.Ctl.RetJSON == "{}" {
 		parts = append(parts, "ctl:nil-or-empty-result")
 	}
 	if len(p.Chunks) > 0 {
@@ -81,6 +81,9 @@ func cause(p *ReqPlan) string {
 	}
 	if p.UnknownLength {
 		parts = append(parts, "unknown-length")
+	}
+	for _, q := range p.Quirks {
+		parts = append(parts, "client:"+q)
 	}
 	sort.Strings(parts)
 	if len(parts) == 0 {
@@ -149,6 +152,7 @@ func (j *judge) minimise(nodes map[string]*node, v Violation) Violation {
 			np.Chunks = src.Chunks
 		}
 		np.UnknownLength, np.CancelledRequest = src.UnknownLength, src.CancelledRequest
+		np.Quirks = src.Quirks
 		if src.Expect.OpID != "" {
 			np.Expect.OpID = src.Expect.OpID
 		}
@@ -222,6 +226,14 @@ func (j *judge) minimise(nodes map[string]*node, v Violation) Violation {
 		np.UnknownLength = false
 		np.ID = pl.nextID()
 		try(&np)
+	}
+	for qi := 0; qi < len(cur.Quirks); {
+		np := *cur
+		np.Quirks = append(append([]string{}, cur.Quirks[:qi]...), cur.Quirks[qi+1:]...)
+		np.ID = pl.nextID()
+		if !try(&np) {
+			qi++
+		}
 	}
 	return v
 }
